@@ -214,6 +214,13 @@ def predict_shift(cfg, k, tol=1e-6, q0=None):
             out.append(dict(key='shift:B_mag', what='after moving the origin by %d grid points B_mag differs from the prescribed |B| at grid nodes by a relative %.3g' % (k, eb), rel_err=eb, cfg=jsonable(cfg), k=int(k)))
     except Exception:
         pass
+    # the point-wise converter of the shifted object, in and beyond its first field period (a shifted origin puts every point of the original first period there)
+    try:
+        ez = toRZ_vs_coefficients(q1, np.random.default_rng(3), npts=4, periods=(0, 1, 0, 2) if q1.nfp >= 3 else ((0, 1) if q1.nfp == 2 else (0,))); checked += 1
+        if ez > 1e-9:
+            out.append(dict(key='shift:to_RZ', what='after moving the origin by %d grid points to_RZ differs from r0 + X n + Y b + Z t of the object (angle compared modulo 2 pi) by %.3g' % (k, ez), rel_err=ez, cfg=jsonable(cfg), k=int(k)))
+    except Exception:
+        pass
     # the periodic interpolants of the axis and of the frame follow the shift: f1(x) = f0(x + k dphi)
     xs = np.array([0.0, 0.3, 1.1, 2.9]) * (2 * np.pi / q0.nfp) / 3.0
     dphi = 2 * np.pi / q0.nfp / n
